@@ -174,7 +174,7 @@ func TestGenWorkers(t *testing.T) {
 		go func() { done <- cmd.Wait() }()
 		select {
 		case err = <-done:
-		case <-time.After(time.Duration(envInt("C18_CHILD_TIMEOUT_S", 600)) * time.Second):
+		case <-time.After(time.Duration(envInt("C18_CHILD_TIMEOUT_S", 1500)) * time.Second):
 			_ = cmd.Process.Kill()
 			lib.Inconclusive("child k=%d did not finish in time", k)
 		}
